@@ -327,6 +327,25 @@ ALLOC = (B + 'SpaceInformation::allocState', B + 'StateSpace::allocState', B + '
 FREE = (B + 'SpaceInformation::freeState', B + 'StateSpace::freeState')
 
 
+READ_ONLY_CALLS = ('nearest', 'nearestK', 'nearestR', 'distance', 'distanceFunction', 'isSatisfied', 'isValid', 'checkMotion',
+                   'sampleUniform', 'sampleUniformNear', 'sampleGoal', 'sample', 'copyState', 'interpolate', 'computeCoordinates',
+                   'project', 'enforceBounds', 'equalStates', 'freeState', 'getStateSpace')
+
+
+def tkey(fn, nid):
+    """key of a temporary: a local variable, or a field of a local aggregate (tgi.xstate)"""
+    n = fn.strip(nid)
+    if n is None:
+        return None
+    if n['k'] == 'DeclRefExpr' and n.get('dk') == 'Local':
+        return '%s#%d' % (n.get('name'), n.get('did'))
+    if n['k'] == 'MemberExpr' and n.get('dk') == 'Field' and n['ch']:
+        b = fn.strip(n['ch'][0])
+        if b is not None and b['k'] == 'DeclRefExpr' and b.get('dk') == 'Local' and '*' not in (b.get('ty') or '') and '&' not in (b.get('ty') or ''):
+            return fn.fp(n['id'])
+    return None
+
+
 class TempStates(paths.Client):
     """auto = frozenset of live temporaries (locals assigned from allocState and not handed over).
     Path-insensitive on purpose: the repository frees its temporaries unconditionally at the function's end, so the only
@@ -350,6 +369,52 @@ class TempStates(paths.Client):
                                     ['%s#%d' % (d['name'], d['did']) for d in fn.nodes[a['var']].get('decls', [])]
                                     for a in fn.ancestors(n['id'])):
                     self.locals_.add('%s#%d' % (t['name'], t['did']))
+            if n['k'] == 'BinaryOperator' and n.get('op') == '=' and (fn.strip(n['ch'][1]) or {}).get('callee') in ALLOC:
+                t = fn.strip(n['ch'][0])
+                if t is not None and t['k'] == 'MemberExpr' and tkey(fn, t['id']):
+                    self.locals_.add(tkey(fn, t['id']))
+        # scratch objects: T *x = new T(...) that is never handed over must be deleted on every path
+        self.news = set()
+        for n in fn.walk():
+            if n['k'] == 'DeclStmt':
+                for d in n.get('decls', []):
+                    if d.get('init') and (fn.strip(d['init']) or {}).get('k') == 'CXXNewExpr':
+                        self.news.add('%s#%d' % (d['name'], d['did']))
+        if self.news:
+            esc = set()
+            for n in fn.walk():
+                if n['k'] in ('BinaryOperator', 'CXXOperatorCallExpr') and (n.get('op') == '=' or n.get('oop') == '=') and len(n['ch']) >= 2:
+                    r = fn.strip(n['ch'][-1])
+                    if r is not None and r['k'] == 'DeclRefExpr' and '%s#%d' % (r.get('name'), r.get('did')) in self.news:
+                        esc.add('%s#%d' % (r['name'], r['did']))
+                    l = fn.strip(n['ch'][0])
+                    if l is not None and l['k'] == 'DeclRefExpr' and '%s#%d' % (l.get('name'), l.get('did')) in self.news and \
+                            (fn.strip(n['ch'][-1]) or {}).get('k') != 'CXXNewExpr':
+                        esc.add('%s#%d' % (l['name'], l['did']))      # re-pointed at something else: not a pure scratch object
+                if n['k'] == 'DeclStmt':
+                    for d in n.get('decls', []):
+                        r = fn.strip(d['init']) if d.get('init') else None
+                        if r is not None and r['k'] == 'DeclRefExpr' and '%s#%d' % (r.get('name'), r.get('did')) in self.news:
+                            esc.add('%s#%d' % (r['name'], r['did']))
+                if n['k'] == 'ReturnStmt' and n['ch']:
+                    for x in fn.walk(n['ch'][0]):
+                        if x['k'] == 'DeclRefExpr' and '%s#%d' % (x.get('name'), x.get('did')) in self.news:
+                            esc.add('%s#%d' % (x['name'], x['did']))
+                if n.get('callee') and n['callee'].split('::')[-1] not in READ_ONLY_CALLS:
+                    for a in args(fn, n):
+                        r = fn.strip(a)
+                        if r is not None and r['k'] == 'DeclRefExpr' and '%s#%d' % (r.get('name'), r.get('did')) in self.news:
+                            esc.add('%s#%d' % (r['name'], r['did']))
+                if n['k'] in ('LambdaExpr', 'InitListExpr', 'CXXConstructExpr'):
+                    for x in fn.walk(n['id']):
+                        if x['id'] != n['id'] and x['k'] == 'DeclRefExpr' and '%s#%d' % (x.get('name'), x.get('did')) in self.news and \
+                                n['k'] != 'CXXConstructExpr':
+                            esc.add('%s#%d' % (x['name'], x['did']))
+                if n['k'] == 'LambdaExpr':
+                    for c in n.get('caps', []):
+                        if c.get('name') and '%s#%d' % (c['name'], c['did']) in self.news:
+                            esc.add('%s#%d' % (c['name'], c['did']))
+            self.news -= esc
         # a local that escapes (stored to a field, passed to a non-free call as owner, returned) is not a pure temporary
         self.escapes = set()
         for n in fn.walk():
@@ -372,7 +437,7 @@ class TempStates(paths.Client):
                 for c in n.get('caps', []):
                     if c.get('name') and '%s#%d' % (c['name'], c['did']) in self.locals_:
                         self.escapes.add('%s#%d' % (c['name'], c['did']))
-        self.track_ = self.locals_ - self.escapes
+        self.track_ = (self.locals_ - self.escapes) | self.news
 
     def init(self, fn):
         return frozenset()
@@ -385,14 +450,23 @@ class TempStates(paths.Client):
                 if kk in self.track_ and d.get('init') and (fn.strip(d['init']) or {}).get('callee') in ALLOC:
                     self.allocs += 1
                     auto = auto | {kk}
+                if kk in self.news and d.get('init') and (fn.strip(d['init']) or {}).get('k') == 'CXXNewExpr':
+                    self.allocs += 1
+                    auto = auto | {kk}
         elif k == 'BinaryOperator' and node.get('op') == '=':
-            kk = key(fn, node['ch'][0])
+            kk = tkey(fn, node['ch'][0])
             if kk in self.track_ and (fn.strip(node['ch'][1]) or {}).get('callee') in ALLOC:
                 self.allocs += 1
                 auto = auto | {kk}
+        elif k == 'CXXDeleteExpr' and node['ch']:
+            kk = tkey(fn, node['ch'][0])
+            if kk in self.news:
+                if kk not in auto:
+                    self.double.append((kk, node['id'], ctx.path()))
+                auto = auto - {kk}
         elif node.get('callee') in FREE:
             a = args(fn, node)
-            kk = key(fn, a[0]) if a else None
+            kk = tkey(fn, a[0]) if a else None
             if kk in self.track_:
                 if kk not in auto:
                     self.double.append((kk, node['id'], ctx.path()))
